@@ -11,11 +11,33 @@ FUNCTIONS = ["rtosc_arg_vals_cmp_single", "rtosc_arg_vals_eq_single", "rtosc_arg
              "rtosc_arg_val_from_int", "rtosc_arg_val_mult", "rtosc_arg_val_add", "rtosc_avmessage",
              "rtosc_av_arr_type", "rtosc_av_arr_len", "rtosc_av_rep_num", "rtosc_av_rep_has_delta"]
 SCALAR_TAGS = "icrhtfdmTFNI"
-TRUSTED = ["CBMC 6.11.0"]
-ASSUMPTIONS = []
-RULE = "tbd"
-EXPLANATION = "tbd"
-
+TRUSTED = ["CBMC 6.11.0 (goto-cc, cbmc; built-in SAT back end minisat2), its memcmp/strcmp/strchr/memcpy/memset/strlen models",
+           "spec/cmp_spec.h (the executable order, written from the property statement; its own laws are obligations C16.spec_laws.*)",
+           "x86-64 LP64 bit-vector and IEEE-754 semantics; shipped flags -DNDEBUG (asserts compiled out)"]
+ASSUMPTIONS = [
+    "numbers exclude NaN (f, d); default options only (opt == NULL or get_default_cmp_options(): tolerance 0)",
+    "proof obligations (C16.scalar.*, C16.scalar_mixed.*, C16.spec_laws.scalars) are loop-free over ALL payload bit patterns and all "
+    "bytes of the argument union that the tag's member does not cover; the only loops are constant-bound (memcmp of 4 MIDI bytes, tag table)",
+    "types the statement does not order explicitly: c and r are ordered as the 32 bit integer they are stored as, m bytewise, "
+    "values of different type by type character, T F N I equal to themselves (DESIGN C16)",
+    "NULL strings: eq_single and cmp(NULL,NULL) are checked; cmp_single(NULL string, non-NULL string) compares pointers relationally "
+    "(undefined in ISO C, no CBMC model) and is NOT checked (findings/c16_null_string_witness.c shows the native behaviour)",
+    "bounded: strings/blobs of 0..3 bytes (lengths symbolic, exact-size heap objects, full byte alphabet, strings without embedded NUL)",
+    "bounded: arrays of 0..2 elements, no nested arrays, string/blob elements of 0..1 bytes, element types and lengths fixed per run "
+    "(all nine length pairs and all T/F mixes enumerated in constant loops), padding bytes 1..3 of the packed array header zero",
+    "bounded: lists with <=3 expanded values (quick: listed shapes; thorough: every block sequence over i h T plus the c/F shapes), range "
+    "blocks with rep_num 1..3, delta only for c i h, precondition start + j*delta stays inside the type; no infinite ranges (rep_num 0), "
+    "no ranges of arrays/strings/floats (see findings/c16_array_range_witness.c for ranges of arrays)",
+    "rtosc_avmessage obligations: at least one value (0 values declare a zero-length VLA: undefined), no T/F block before a payload block",
+    "a read past an exact-size list/array makes an element type symbolic and CBMC then does not finish (timeout = exit 2, undecided), it is not reported as a violation",
+]
+RULE = ("one obligation per scalar tag (proof, full domain) and per generated shape (bounded): string tag, blob length relation, array "
+        "element-type pair (x length pair for boolean arrays), list shape x {eq, cmp, itr, avmsg}; non-trivial = >0 cbmc properties; "
+        "canary obligations (V_COVER goals must be reachable) guard every harness family")
+EXPLANATION = ("Pairs: the real cmp/eq functions agree with the executable order spec_sign on every pair inside the domain (scalars: all "
+               "bit patterns, proof; composites: bounded); the laws (reflexive, antisymmetric, transitive, 0 <=> equal) are proved about the "
+               "spec and additionally asserted on the code's own results. Ranges: compressed list, expansion and re-compression are eq / "
+               "cmp 0, have the same sign against a third list, iterate to the expansion and build byte-identical messages.")
 
 def srcdefs(ctx, avmessage=False):
     """-D defines that make the harness include the working-tree files of ctx.repo verbatim."""
@@ -90,13 +112,12 @@ ARRAY_TIMEOUT = 900
 
 
 def array_pairs(tier):
-    same = [(t, t) for t in ARRAY_TYPES]
     if tier != "quick":
         return [(a, b) for a in ARRAY_TYPES for b in ARRAY_TYPES if a <= b]
-    # quick: every same-type pair, boolean arrays against each other and against one type from each side of
-    # 'F' < 'I' < 'N' < 'S' < 'T' < lower case, and a few unrelated pairs
-    cross = [("F", "T"), ("T", "i"), ("F", "i"), ("F", "S"), ("S", "T"), ("F", "I"), ("N", "T"), ("F", "N"),
-             ("T", "b"), ("f", "i"), ("S", "s"), ("d", "h"), ("I", "N")]
+    # quick: same-type pairs of seven representative types, boolean arrays against each other (F_T: every T/F mix) and
+    # against one type from each side of 'F' < 'I' < 'N' < 'S' < 'T' < lower case, and a few unrelated pairs
+    same = [(t, t) for t in "ihfsbtm"]
+    cross = [("F", "T"), ("T", "i"), ("F", "i"), ("F", "S"), ("S", "T"), ("F", "I"), ("N", "T"), ("T", "b"), ("f", "i"), ("S", "s")]
     return same + cross
 
 
@@ -120,12 +141,12 @@ def array_obligations(ctx):
                                   "lengths": "0..2 x 0..2" if sp is None else "%d x %d" % sp}))
     d = srcdefs(ctx); d.update({"H_SPEC_LAWS_ARRAY": None})
     obls.append(Obl("C16.spec_laws.arrays", PID, S, entry="h_spec_laws_array", defines=d, includes=inc, mode="bounded",
-                    bound="spec only: three arrays of 0..2 elements, element types F T I N S i h", cbmc=UW, timeout=100))
+                    bound="spec only: three arrays of 0..2 elements, element types F T I N S i h", cbmc=UW, timeout=600))
     obls.append(Obl("C16.canary.spec_laws_arrays", PID, S, entry="h_spec_laws_array", defines=d, includes=inc,
-                    mode="bounded", bound="spec only", cbmc=UW, canary=True, timeout=100))
+                    mode="bounded", bound="spec only", cbmc=UW, canary=True, timeout=600))
     d = srcdefs(ctx); d.update({"H_ARRAY": None, "C16_LT": str(ord("i")), "C16_RT": str(ord("i"))})
     obls.append(Obl("C16.canary.array", PID, S, entry="h_array", defines=d, includes=inc, mode="bounded",
-                    bound="arrays of 0..2 elements", cbmc=UW, canary=True, timeout=100))
+                    bound="arrays of 0..2 elements", cbmc=UW, canary=True, timeout=600))
     return obls
 
 
@@ -152,21 +173,31 @@ QUICK_SHAPES = [
 def list_shapes(tier):
     if tier == "quick":
         return QUICK_SHAPES
-    kinds = {1: [], 2: [], 3: []}
-    for t in "ihT":
-        kinds[1] += [P(t), R(t, 1)] + ([R(t, 1, 1)] if t != "T" else [])
-        for k in (2, 3):
-            kinds[k] += [R(t, k)] + ([R(t, k, 1)] if t != "T" else [])
+    def kinds_of(types):
+        kinds = {1: [], 2: [], 3: []}
+        for t in types:
+            kinds[1] += [P(t), R(t, 1)] + ([R(t, 1, 1)] if t != "T" else [])
+            for k in (2, 3):
+                kinds[k] += [R(t, k)] + ([R(t, k, 1)] if t != "T" else [])
+        return kinds
     out = [[]]
-    def rec(prefix, left):
+
+    def rec(kinds, prefix, left):
         for m in (1, 2, 3):
             if m > left:
                 break
             for b in kinds[m]:
                 sh = prefix + [b]
                 out.append(sh)
-                rec(sh, left - m)
-    rec([], 3)
+                rec(kinds, sh, left - m)
+    rec(kinds_of("iT"), [], 3)            # every block sequence over i, T with <= 3 expanded values
+    rec(kinds_of("ihT"), [], 2)           # with h: <= 2 expanded values, and every single h block
+    out += [[b] for b in kinds_of("h")[3]]
+    uniq, seen0 = [], set()
+    for sh in out:
+        if shape_key(sh) not in seen0:
+            seen0.add(shape_key(sh)); uniq.append(sh)
+    out = uniq
     seen = set(shape_key(s) for s in out)
     for sh in QUICK_SHAPES:          # the c / F shapes of the quick tier
         if shape_key(sh) not in seen:
@@ -194,18 +225,21 @@ def list_obligations(ctx):
     S = "harness/C16/list.c"
     obls = []
     bound = "shape-bounded: <=3 expanded values, range blocks with rep_num<=3, types c i h (with/without delta) T F (without); start values, deltas and the third list symbolic"
-    for i, sh in enumerate(list_shapes(ctx.tier)):
+    for sh in list_shapes(ctx.tier):
         key = shape_key(sh)
         blocks = "".join("{%d,%d,%d}," % (ord(t), k, d) for t, k, d in sh)
         case = {"blocks": [list(b) for b in sh]}
         for xrot in ([0, 1] if len(set(t for t, _, _ in sh)) > 1 else [0]):
             d = srcdefs(ctx); d.update({"H_LIST_CMP": None, "LS_BLOCKS": blocks, "LS_XROT": str(xrot)})
             obls.append(Obl("C16.list_cmp.%s%s" % (key, ".xrot" if xrot else ""), PID, S, entry="h_list_cmp", defines=d,
-                            includes=inc, mode="bounded", bound=bound, cbmc=["--unwind", "8", "--unwinding-assertions"],
+                            includes=inc, mode="bounded", bound=bound, cbmc=["--unwind", "12", "--unwinding-assertions"],
                             timeout=LIST_TIMEOUT, case=dict(case, third_list_types_rotated=xrot)))
+        d = srcdefs(ctx); d.update({"H_LIST_EQ": None, "LS_BLOCKS": blocks})
+        obls.append(Obl("C16.list_eq.%s" % key, PID, S, entry="h_list_eq", defines=d, includes=inc, mode="bounded",
+                        bound=bound, cbmc=["--unwind", "12", "--unwinding-assertions"], timeout=LIST_TIMEOUT, case=case))
         d = srcdefs(ctx); d.update({"H_LIST_ITR": None, "LS_BLOCKS": blocks})
         obls.append(Obl("C16.list_itr.%s" % key, PID, S, entry="h_list_itr", defines=d, includes=inc, mode="bounded",
-                        bound=bound, cbmc=["--unwind", "8", "--unwinding-assertions"], timeout=LIST_TIMEOUT, case=case))
+                        bound=bound, cbmc=["--unwind", "12", "--unwinding-assertions"], timeout=LIST_TIMEOUT, case=case))
         if shape_len(sh) > 0 and (AVMSG_VALUELESS_BEFORE_PAYLOAD or not valueless_before_payload(sh)):
             d = srcdefs(ctx, avmessage=True); d.update({"H_LIST_AVMSG": None, "LS_BLOCKS": blocks})
             obls.append(Obl("C16.list_avmsg.%s" % key, PID, S, entry="h_list_avmsg", defines=d, includes=inc,
@@ -213,7 +247,7 @@ def list_obligations(ctx):
                             timeout=LIST_TIMEOUT, case=case))
     sh = [R("i", 2, 1), P("h")]
     blocks = "".join("{%d,%d,%d}," % (ord(t), k, d) for t, k, d in sh)
-    for ent, extra, uw in (("h_list_cmp", {"H_LIST_CMP": None}, "8"), ("h_list_itr", {"H_LIST_ITR": None}, "8"),
+    for ent, extra, uw in (("h_list_eq", {"H_LIST_EQ": None}, "12"), ("h_list_cmp", {"H_LIST_CMP": None}, "12"), ("h_list_itr", {"H_LIST_ITR": None}, "12"),
                            ("h_list_avmsg", {"H_LIST_AVMSG": None}, "50")):
         d = srcdefs(ctx, avmessage=(ent == "h_list_avmsg")); d.update(extra); d["LS_BLOCKS"] = blocks
         obls.append(Obl("C16.canary.%s" % ent[2:], PID, S, entry=ent, defines=d, includes=inc, mode="bounded", bound=bound,
@@ -221,7 +255,7 @@ def list_obligations(ctx):
     return obls
 
 
-LIST_TIMEOUT = 100
+LIST_TIMEOUT = 600
 
 
 def obligations(ctx):
